@@ -265,3 +265,50 @@ Proof.
     + intros P In. apply F in In. rewrite P in In. discriminate.
     + intro P. apply F. rewrite P. reflexivity.
 Qed.
+
+(* ------------------------------------------------------------------ committed versions are immutable (C09) *)
+Lemma fstep_refs_stable c x e x' v : FInv c x -> fstep c x e = Some x' -> (v < length (f_refs x))%nat -> refs x' v = refs x v.
+Proof.
+  intros I H L. destruct e as [e|a|a]; simpl in H.
+  - destruct (step c (fw x) e) as [w'|]; [|discriminate]. inversion H; subst x'. unfold refs. simpl.
+    destruct (e_kind e); try reflexivity. destruct (a_pc (w_actors (fw x) (e_actor e))); try reflexivity.
+    apply app_nth1. exact L.
+  - destruct (can_write _); [|discriminate]. inversion H; reflexivity.
+  - destruct (can_rollback _); [|discriminate]. inversion H; reflexivity.
+Qed.
+
+Lemma fstep_refs_len c x e x' : fstep c x e = Some x' -> (length (f_refs x) <= length (f_refs x'))%nat.
+Proof.
+  intro H. destruct e as [e|a|a]; simpl in H.
+  - destruct (step c (fw x) e) as [w'|]; [|discriminate]. inversion H; subst x'. simpl.
+    destruct (e_kind e); try lia. destruct (a_pc (w_actors (fw x) (e_actor e))); try lia. rewrite app_length. simpl. lia.
+  - destruct (can_write _); [|discriminate]. inversion H; simpl; lia.
+  - destruct (can_rollback _); [|discriminate]. inversion H; simpl; lia.
+Qed.
+
+(* Once a version is committed, whatever happens later -- further commits (appends, deletes that
+   rewrite manifests into FRESH files), failed / interrupted / crashed commits and their rollbacks --
+   the set of files it references is unchanged and every one of them still exists.  (Files are
+   write-once: FWrite only ever creates fresh names, so unchanged names mean unchanged content.) *)
+Theorem committed_immutable c x evs :
+  sound c -> FInv c x ->
+  forall v, In v (committed (fw x)) ->
+    refs (frun c x evs) v = refs x v /\ (forall f, In f (refs x v) -> In f (f_present (frun c x evs)))
+    /\ In v (committed (fw (frun c x evs))).
+Proof.
+  intros Snd. revert x. induction evs as [|e l IH]; intros x I v Hv.
+  - simpl. split; [reflexivity|]. split; [apply (finv_present c x I v Hv) | exact Hv].
+  - rewrite frun_cons. unfold fstep_skip. destruct (fstep c x e) as [x'|] eqn:St; [|apply IH; auto].
+    assert (I' : FInv c x') by (eapply fstep_inv; eauto).
+    assert (Lv : (v < length (f_refs x))%nat).
+    { rewrite (FI_len c x I). eapply committed_valid; [apply I | exact Hv]. }
+    assert (Hv' : In v (committed (fw x'))).
+    { destruct e as [e|a|a]; simpl in St.
+      - destruct (step c (fw x) e) as [w'|] eqn:S1; [|discriminate]. inversion St; subst x'. simpl.
+        destruct (step_cases c _ _ _ S1) as [_ [[now [_ [_ [_ [Hi _]]]]]|[[_ [_ [_ [Hi _]]]]|[_ [Hi _]]]]];
+          unfold committed; rewrite Hi; auto. apply comm_snoc. left. exact Hv.
+      - destruct (can_write _); [|discriminate]. inversion St; subst x'. exact Hv.
+      - destruct (can_rollback _); [|discriminate]. inversion St; subst x'. exact Hv. }
+    destruct (IH x' I' v Hv') as [R [P C]]. rewrite (fstep_refs_stable c x e x' v I St Lv) in R, P.
+    split; [exact R|]. split; [exact P | exact C].
+Qed.
